@@ -127,3 +127,5 @@ package trafficshape
 //@   requires forall k string :: has(c.LocalBuckets, k) ==> c.LocalBuckets[k] != nil && c.LocalBuckets[k].ReadBucket != nil && c.LocalBuckets[k].WriteBucket != nil
 //@   modifies Bucket.bclosed
 //@   ensures[per-connection-buckets-released] forall k string :: has(c.LocalBuckets, k) ==> c.LocalBuckets[k].ReadBucket.bclosed && c.LocalBuckets[k].WriteBucket.bclosed
+//@   loop 0 invariant forall k string :: visited(k) ==> c.LocalBuckets[k].ReadBucket.bclosed && c.LocalBuckets[k].WriteBucket.bclosed
+//@   loop 0 invariant forall o *Bucket :: old(o.bclosed) ==> o.bclosed
